@@ -1,3 +1,25 @@
 """Per-property run plan: which tests, how many cases/shards per tier, and the evidence rule text."""
 
-PLAN = {}
+PLAN = {
+    "C16": dict(
+        level="exploration",
+        rule=("cases = (message type enumerated from the app's interface registry that carries an authority and has a router handler, "
+              "payload from a valid-by-construction template built on the live state or from reflection fill, non-governance authority of one of "
+              "10 shapes); non-trivial = the same payload SUCCEEDS under the governance authority (so the authority guard, not validation, is what "
+              "rejected it) and the drawn authority is not the governance address; distinct = distinct (type, chain, authority shape, payload mode)"),
+        assumptions=["baseapp discards a failed message's writes (reproduced by the harness: cache context written only on success)",
+                     "a case-variant of the governance bech32 string counts as the governance authority (x/evm compares case-insensitively)"],
+        quick=[dict(test="TestC16", cases=2400, shards=8, timeout=600)],
+        thorough=[dict(test="TestC16", cases=96000, shards=16, timeout=3000, shrink=120)],
+    ),
+    "C03": dict(
+        level="exploration",
+        rule=("pairs (c, c') of valid claims of one of the 6 claim types where c' differs from c in exactly one execution-relevant field, "
+              "or re-splits two adjacent free-form fields, or swaps/moves list elements; oracle: ClaimHash(c) != ClaimHash(c'), and for a quarter "
+              "of the parked/registered types additionally a 3-oracle tally on the real keeper (votes A,B,B: nothing observed before two oracles agree, "
+              "applied claim == B field for field); every generated pair is non-trivial; distinct = distinct (type, mutation kind+field, stateful)"),
+        assumptions=["chain_name and the voter's own bridger_address are not execution-relevant (they are per-voter)"],
+        quick=[dict(test="TestC03", cases=12000, shards=8, timeout=600)],
+        thorough=[dict(test="TestC03", cases=1200000, shards=16, timeout=3000, shrink=120)],
+    ),
+}
